@@ -333,8 +333,14 @@ def check_panics(ctx):
     ctx.note("explicit panic sources reachable from load_indexes (evidence only, %d bodies): %s" % (len(seen), "; ".join(sorted(set(found))[:25])))
 
 
+def check_bounds(ctx):
+    from rules import c17_bounds
+    c17_bounds.check(ctx, "C17.bounds")
+
+
 def check(ctx):
     check_nowrite(ctx)
     check_zero(ctx)
     check_validate(ctx)
     check_panics(ctx)
+    check_bounds(ctx)
